@@ -137,10 +137,13 @@ def call_with_params(I, f, args):
 
 def eval_clause(I, src, env):
     """truth of a clause: bool / z3 Bool; a python exception inside the clause makes it False"""
+    I.spec_depth += 1
     try:
         return I.truth(I.eval(parse_expr(src), env))
     except PyRaise as e:
         return False
+    finally:
+        I.spec_depth -= 1
 
 
 def frame_equal(I, a, b):
@@ -177,7 +180,8 @@ def make_run(world, c, combo, use_contracts, spec_builtins):
     invs = {(c.qualname, k): v for k, v in c.invariants.items()}
 
     def run(st):
-        config = {'spec_builtins': spec_builtins, 'invariants': invs}
+        config = {'spec_builtins': spec_builtins, 'invariants': invs,
+                  'spec_modules': tuple(m for m in world.sources if m.startswith('contracts.') or m == 'pyvc.speclib')}
         I = Interp(world, st, use_contracts=use_contracts, unwind=unwind, top=c.key, config=config)
         args = {}
         for name, spec in combo.items():
@@ -291,13 +295,16 @@ def apply_contract_at_call(I, c, f, args, kwargs, node):
     try:
         for i, r in enumerate(c.requires):
             t = eval_clause(I, r, env)
-            st.add_vc(f"pre[{c.qualname}].{i}", 'pre', t, {'level': 'top', 'callee': c.qualname,
+            st.add_vc(f"pre[{c.name}].{i}", 'pre', t, {'level': 'top', 'callee': c.name,
                                                         'line': getattr(node, 'lineno', None)})
             st.assume(t)
         if c.modifies:
             raise Unsupported(f"call-site use of contract {c.qualname} which mutates {c.modifies}")
         for exc, when in (c.call_raises or []):
-            t = True if when is None else eval_clause(I, when, env)
+            if when == 'MAY':
+                t = st.fresh_bool('may_raise')      # the callee may or may not raise
+            else:
+                t = True if when is None else eval_clause(I, when, env)
             if I.branch(t):
                 raise PyRaise(exc, lineno=getattr(node, 'lineno', None))
         if c.result_spec is None:
@@ -308,7 +315,9 @@ def apply_contract_at_call(I, c, f, args, kwargs, node):
         res = rs.make(I, st.fresh_name('ret_' + c.qualname.replace('.', '_')))
         env.vars['result'] = res
         for cl in c.ensures:
-            st.assume(eval_clause(I, cl.expr, env))
+            # kept out of the feasibility solver (definitional facts about the result; feasibility
+            # is over-approximated, every VC still carries them)
+            st.assume(eval_clause(I, cl.expr, env), lazy=True)
         st.events.append(('call', c.qualname))
         return res
     finally:
